@@ -561,6 +561,196 @@ fn mutate_battery(cf: &mut CompoundFile<MonFile>, rng: &mut Rng, rep: &mut Repor
     }
 }
 
+
+/// Base images for the alias episode: every object in the root storage, `n_small` streams of
+/// 4000 bytes (a MiniFAT chain of several sectors, a directory chain of several sectors, a
+/// long mini stream container) and two regular streams.
+fn alias_base(version: Version, n_small: usize) -> Option<Vec<u8>> {
+    let (file, shared) = MonFile::new(Vec::new());
+    let mut cf = CompoundFile::create_with_version(version, file).ok()?;
+    for i in 0..n_small {
+        let mut s = cf.create_stream(format!("/m{i:02}")).ok()?;
+        s.write_all(&engine::payload(i as u64, 4000)).ok()?;
+        s.flush().ok()?;
+    }
+    for (name, len) in [("/victim", 5000usize), ("/big", 9000)] {
+        let mut s = cf.create_stream(name).ok()?;
+        s.write_all(&engine::payload(77, len)).ok()?;
+        s.flush().ok()?;
+    }
+    cf.flush().ok()?;
+    drop(cf);
+    Some(shared.bytes())
+}
+
+/// The alias episode of C11: `/victim`'s directory entry is made to name one of the chains
+/// the format keeps for itself (MiniFAT, directory, mini stream container) as its data.
+/// Open looks at no stream's chain, so the file is accepted.  The stream is then shortened by
+/// whole sectors (which frees sectors of that structure), overwritten, or removed, and the
+/// small streams, whose bookkeeping lives there, are removed, resized, written and created.
+/// Every call may answer Ok or Err; none may panic or spin.
+fn alias_episode(rng: &mut Rng, bases: &[(Vec<u8>, Image)], rep: &mut Report, log: &mut Vec<String>, bytes_out: &mut Vec<u8>, desc: &mut Vec<String>) -> bool {
+    let (base, img) = rng.pick(bases);
+    let mut bytes = base.clone();
+    let (what, chain): (&str, &Vec<u32>) = match rng.below(3) {
+        0 => ("MiniFAT chain", &img.minifat_chain),
+        1 => ("directory chain", &img.dir_chain),
+        _ => ("mini stream container", &img.ministream_chain),
+    };
+    desc.push(format!("alias base ({} bytes, v{}, {} MiniFAT sectors, {} directory sectors)", bytes.len(), img.version, img.minifat_chain.len(), img.dir_chain.len()));
+    let victim = match img.entries.iter().find(|e| e.obj_type == 2 && e.name().as_deref() == Some("victim")) {
+        Some(v) => v,
+        None => return false,
+    };
+    if chain.is_empty() {
+        return false;
+    }
+    let from = if rng.chance(3, 4) { 0 } else { rng.usize_below(chain.len()) };
+    let held = ((chain.len() - from) * img.sector_len) as u64;
+    let len = match rng.below(3) {
+        0 => held,
+        1 => held.saturating_sub(rng.below(img.sector_len as u64)),
+        _ => held + img.sector_len as u64,
+    }
+    .max(4096);
+    bytes[victim.off + 116..victim.off + 120].copy_from_slice(&chain[from].to_le_bytes());
+    bytes[victim.off + 120..victim.off + 128].copy_from_slice(&len.to_le_bytes());
+    desc.push(format!("/victim (entry {}) starts at sector {} = position {from} of the {what} ({} sectors), size {len}", victim.idx, chain[from], chain.len()));
+    rep.count(&format!("alias.{}", what.replace(' ', "_")));
+    *bytes_out = bytes.clone();
+    let (file, _shared) = MonFile::new(bytes);
+    let mut cf = match engine::open_with(file, Mode::Permissive, *rng.pick(&[Some(1024usize), None])) {
+        Ok(cf) => cf,
+        Err(_) => {
+            rep.count("alias.rejected_by_open");
+            return false;
+        }
+    };
+    let sl = img.sector_len as u64;
+    let n_small = img.entries.iter().filter(|e| e.obj_type == 2 && e.size == 4000).count();
+    let note = |rep: &mut Report, op: String, r: std::io::Result<()>, log: &mut Vec<String>| {
+        rep.count(&format!("alias.op.{}", op.split('(').next().unwrap_or("?")));
+        match &r {
+            Ok(()) => {
+                rep.count("alias.ok");
+                log.push(format!("{op} -> Ok"))
+            }
+            Err(e) => {
+                rep.set_insert("error_families", error_family(e));
+                log.push(format!("{op} -> Err({:?})", e.kind()));
+            }
+        }
+    };
+    // first what is done to the aliasing stream
+    let first = rng.below(5);
+    match first {
+        0 | 1 => {
+            let k = rng.range(1, 3) as u64;
+            let target = len.saturating_sub(k * sl).max(4096);
+            let r = (|| {
+                let mut s = NoDropOnPanic::new(cf.open_stream("/victim")?);
+                s.set_len(target)?;
+                s.flush()?;
+                s.done();
+                Ok(())
+            })();
+            note(rep, format!("victim.set_len({target})"), r, log);
+        }
+        2 => {
+            let r = cf.remove_stream("/victim");
+            note(rep, "victim.remove".into(), r, log);
+        }
+        3 => {
+            let at = rng.below(len);
+            let n = *rng.pick(&[4usize, 64, 600, 5000]);
+            let r = (|| {
+                let mut s = NoDropOnPanic::new(cf.open_stream("/victim")?);
+                s.seek(SeekFrom::Start(at))?;
+                s.write_all(&vec![0xFFu8; n])?;
+                s.flush()?;
+                s.done();
+                Ok(())
+            })();
+            note(rep, format!("victim.write({n} x 0xFF at {at})"), r, log);
+        }
+        _ => {
+            let target = *rng.pick(&[0u64, 100, 4095]);
+            let r = (|| {
+                let mut s = NoDropOnPanic::new(cf.open_stream("/victim")?);
+                s.set_len(target)?;
+                s.flush()?;
+                s.done();
+                Ok(())
+            })();
+            note(rep, format!("victim.set_len({target})"), r, log);
+        }
+    }
+    // then the objects whose bookkeeping lives in that structure, the last ones first
+    let n_ops = rng.range(3, 10);
+    for k in 0..n_ops {
+        let i = if rng.chance(2, 3) { n_small.saturating_sub(1 + (k as usize) / 2) } else { rng.usize_below(n_small.max(1)) };
+        let p = format!("/m{i:02}");
+        match rng.below(7) {
+            0 | 1 => {
+                let r = cf.remove_stream(&p);
+                note(rep, format!("remove_stream({p})"), r, log);
+            }
+            2 => {
+                let target = *rng.pick(&[0u64, 64, 3000, 4095, 4096, 9000]);
+                let r = (|| {
+                    let mut s = NoDropOnPanic::new(cf.open_stream(&p)?);
+                    s.set_len(target)?;
+                    s.flush()?;
+                    s.done();
+                    Ok(())
+                })();
+                note(rep, format!("set_len({p}, {target})"), r, log);
+            }
+            3 => {
+                let r = (|| {
+                    let mut s = NoDropOnPanic::new(cf.open_stream(&p)?);
+                    s.seek(SeekFrom::End(0))?;
+                    s.write_all(&engine::payload(k, 90))?;
+                    s.flush()?;
+                    let mut v = Vec::new();
+                    s.seek(SeekFrom::Start(0))?;
+                    (&mut *s).take(1 << 20).read_to_end(&mut v)?;
+                    s.done();
+                    Ok(())
+                })();
+                note(rep, format!("append+read({p})"), r, log);
+            }
+            4 => {
+                let q = format!("/x{k}");
+                let size = *rng.pick(&[1usize, 64, 4000, 4096, 20_000]);
+                let r = (|| {
+                    let mut s = NoDropOnPanic::new(cf.create_stream(&q)?);
+                    s.write_all(&engine::payload(k, size))?;
+                    s.flush()?;
+                    s.done();
+                    Ok(())
+                })();
+                note(rep, format!("create_stream+write({q}, {size})"), r, log);
+            }
+            5 => {
+                let q = format!("/dir{k}/a/b");
+                let r = cf.create_storage_all(&q);
+                note(rep, format!("create_storage_all({q})"), r, log);
+            }
+            _ => {
+                let r = cf.flush();
+                note(rep, "flush".into(), r, log);
+                let _ = cf.walk().take(5000).count();
+                if let Ok(mut s) = cf.open_stream("/victim") {
+                    let mut v = Vec::new();
+                    let _ = (&mut s).take(1 << 20).read_to_end(&mut v);
+                }
+            }
+        }
+    }
+    true
+}
+
 pub fn run_c11(ctx: &Ctx, rep: &mut Report) {
     let pool = base_pool(ctx.seed, ctx.shard, if ctx.quick() { 24 } else { 64 });
     let seeds = repo_seeds();
@@ -569,9 +759,38 @@ pub fn run_c11(ctx: &Ctx, rep: &mut Report) {
         return;
     }
     guard::set_alloc_cap(1 << 30);
+    let mut alias_bases: Vec<(Vec<u8>, Image)> = Vec::new();
+    for (version, n_small) in [(Version::V3, 18usize), (Version::V3, 5), (Version::V4, 40), (Version::V4, 18)] {
+        if let Some(b) = alias_base(version, n_small) {
+            if let Ok(img) = refparse::parse(&b) {
+                alias_bases.push((b, img));
+            }
+        }
+    }
+    if alias_bases.len() < 4 {
+        rep.inconclusive("alias base images could not be built".into());
+        return;
+    }
     let mut i = 0;
     while let Some(case) = ctx.next_case(&mut i) {
         let mut rng = ctx.case_rng(case);
+        if load_input(ctx).is_none() && case % 16 == 5 {
+            // the alias episode (see alias_episode)
+            rep.evaluations += 1;
+            let mut log: Vec<String> = Vec::new();
+            let (mut bytes, mut desc, mut accepted) = (Vec::new(), Vec::new(), false);
+            let r = guard::catch(|| {
+                accepted = alias_episode(&mut rng, &alias_bases, rep, &mut log, &mut bytes, &mut desc);
+            });
+            if accepted || r.is_err() {
+                rep.count("alias.episodes");
+                rep.nontrivial(fnv64(&bytes) ^ fnv64(log.join(";").as_bytes()));
+            }
+            if let Err(p) = r {
+                rep.finding(p.signature(), format!("panic at {}:{}: {} (after: {})", p.file, p.line, p.message, log.join("; ")), input_witness(ctx, case, &bytes, &desc, vec![("calls_before_panic", J::Arr(log.iter().map(|l| J::s(l.clone())).collect()))]));
+            }
+            continue;
+        }
         let (bytes, desc) = match load_input(ctx) {
             Some(b) => (b, vec!["explicit input file".to_string()]),
             None => make_input(&mut rng, &pool, &seeds, Emphasis::PostOpen, rep),
